@@ -1039,5 +1039,8 @@ func vC12Exec(t *testing.T, c *vCase) {
 	defer s.finish()
 	for _, line := range c.Ops {
 		c.Impl = append(c.Impl, s.step(line))
+		if vC12Progress != nil {
+			vC12Progress()
+		}
 	}
 }
